@@ -44,7 +44,7 @@ MANIFEST = dict(
          'side/depth, mipmap) read() visits gets exactly the bytes save() produced for it, for any object version and written version '
          '(save(version=)), cubemap or volume; every fitting file can be encoded. Particle sheets: read_sheet(make_sheet qs) = qs for '
          'both sheet versions (version 0 keeps the first coordinate of a frame only). The premises are regenerated from '
-         'vtf.py/_py_vtf_readwrite.py on every run and checked in the kernel (239 obligations); the generated codecs are compared with '
+         'vtf.py/_py_vtf_readwrite.py on every run and checked in the kernel (250 obligations); the generated codecs are compared with '
          'the Python codecs, the generated Frame effect tables are run by Coq on symbolic pixels against histories of operations on the '
          'implementation, implementation-saved files are decoded by the Coq container model and model-encoded files (also files that '
          'declare all mipmap levels, as other tools write them) are read by VTF.read; whole files are saved and read back over all '
@@ -55,7 +55,9 @@ MANIFEST = dict(
          'for every site whose description passes path_ok (instance obligation per site) the accepted coordinates are exactly '
          '[0,width) x [0,height) x [0,4) and the byte addressed is 4*(y*width + x) + c, so a pixel written through one path is read back '
          'through every other and no other coordinate changes (c15_every_pixel_path_agrees), frame[x, y] rejects nothing inside the '
-         'frame, every allocation has 4*width*height bytes, whole arrays are copied only between frames of equal width and height. '
+         'frame, every allocation has 4*width*height bytes, whole arrays are copied only between frames of equal width and height; '
+         'every site that addresses the frame table builds the key (frame, side-or-depth, mipmap) (roles of the key elements regenerated), '
+         'so VTF.get finds the frame the constructor / read() stored. '
          'The RGB888/BGR888_BLUESCREEN codecs are translated (if statements) and equal the hand-written keyed codec, for which '
          'load(save p) = (0,0,0,0) if alpha < 128 or the colour is pure blue, else (r, g, b, 255), and save(load d) = d on all stored '
          'values. Frames: decode_frame(encode_frame ps) = map q ps for frames of any size, and (c15_saved_pixels_read_back_*) for every '
@@ -475,6 +477,39 @@ def run_config(cfg: dict) -> list[tuple[str, str]]:
         return [('save-read-does-not-return', f'building, saving and reading back this texture: {e} (milliseconds on the unchanged tree)')]
 
 
+def get_probe(obj, what: str) -> list[tuple[str, str]]:
+    """VTF.get(frame=, depth= | side=, mipmap=) is how a user reaches a frame: for every key of the frame table it must hand out
+    exactly the frame stored under that key, and refuse a (frame, side/depth, mipmap) that is not in the table."""
+    from srctools.vtf import VTFFlags
+    cube = VTFFlags.ENVMAP in obj.flags
+    out: list[tuple[str, str]] = []
+    for k, fr in obj._frames.items():
+        kw = {'frame': k[0], 'mipmap': k[2], ('side' if cube else 'depth'): k[1]}
+        try:
+            got = obj.get(**kw)
+        except Exception as e:      # noqa: BLE001
+            out.append((f'get-raises-{type(e).__name__}', f'{what}: get({kw}) raised {type(e).__name__}: {e} for a key of the frame table'))
+            break
+        if got is not fr:
+            other = next((k2 for k2, f2 in obj._frames.items() if f2 is got), None)
+            out.append(('get-returns-another-frame', f'{what}: get(frame={k[0]}, {"side" if cube else "depth"}={k[1]!r}, mipmap={k[2]}) returns the frame stored under {other}'))
+            break
+    if obj._frames:
+        nf, nm = 1 + max(k[0] for k in obj._frames), 1 + max(k[2] for k in obj._frames)
+        side = next(iter(obj._frames))[1]
+        for kw in ({'frame': nf, 'mipmap': 0}, {'frame': 0, 'mipmap': nm}):
+            kw[('side' if cube else 'depth')] = side
+            try:
+                obj.get(**kw)
+            except (KeyError, IndexError, ValueError):
+                continue
+            except Exception as e:      # noqa: BLE001
+                out.append((f'get-raises-{type(e).__name__}', f'{what}: get({kw}) outside the frame table raised {type(e).__name__}: {e}'))
+                continue
+            out.append(('get-accepts-key-outside-the-frame-table', f'{what}: get({kw}) returns a frame; the table has {nf} frame(s) and {nm} level(s)'))
+    return out
+
+
 def _run_config(cfg: dict) -> list[tuple[str, str]]:
     """Build the VTF described by cfg, save it, read it back, and return [(violation key, description)]."""
     from srctools.vtf import VTF, ImageFormats, VTFFlags, Resource, ResourceID, SheetSequence, TexCoord
@@ -502,6 +537,7 @@ def _run_config(cfg: dict) -> list[tuple[str, str]]:
         vtf.resources[key] = Resource(fl, data if isinstance(data, int) else bytes.fromhex(data))
     keys0 = set(vtf._frames)
     dims0 = {k: (f.width, f.height) for k, f in vtf._frames.items()}
+    probs += get_probe(vtf, 'constructed object')
     n_levels = 1 + max(k[2] for k in keys0)
     for k in sorted(keys0, key=lambda k: (k[0], getattr(k[1], 'value', k[1]), k[2])):
         fr = vtf._frames[k]
@@ -557,6 +593,7 @@ def _run_config(cfg: dict) -> list[tuple[str, str]]:
         v2.load()
     except Exception as e:
         return probs + [(f'read-raises-{type(e).__name__}', f'reading the saved file raised {type(e).__name__}: {e}')]
+    probs += get_probe(v2, 'read-back object')
     exp_version = sv or (7, cfg['version'])
     meta = {
         'width': (vtf.width, v2.width), 'height': (vtf.height, v2.height), 'depth': (vtf.depth, v2.depth),
@@ -906,6 +943,9 @@ def access_obligations(info: dict) -> dict[str, str]:
         obs[f'pixel_array_allocated_in_{_slug(name.split(":")[0])}_{i}_has_4_width_height_bytes'] = f'alloc_ok 4 (snd (nth {i} gen_allocs (EmptyString, nil)))'
     for i, (name, _a) in enumerate(info['guards']):
         obs[f'whole_array_{_slug(name)}_only_between_frames_of_equal_width_and_height'] = f'copy_guard_ok (snd (nth {i} gen_copy_guards (EmptyString, nil)))'
+    for i, (name, _r) in enumerate(info.get('keys', [])):
+        obs[f'frame_table_key_in_{_slug(name)}_is_frame_side_mipmap'] = f'key_ok (snd (nth {i} gen_key_sites (EmptyString, nil)))'
+    obs['every_frame_table_key_is_frame_side_mipmap'] = '(forallb (fun k => key_ok (snd k)) gen_key_sites && negb (Nat.eqb (List.length gen_key_sites) 0))%bool'
     obs['every_pixel_path_of_the_census_has_the_canonical_address_map'] = \
         '(forallb path_ok gen_paths && negb (Nat.eqb (List.length gen_paths) 0))%bool'
     obs['every_pixel_array_allocation_has_4_width_height_bytes'] = '(forallb (fun a => alloc_ok 4 (snd a)) gen_allocs && negb (Nat.eqb (List.length gen_allocs) 0))%bool'
@@ -2162,6 +2202,9 @@ def run(ck: Ck) -> None:
             ck.explain('instance:cubemaps_have_six_sides')
             ck.explain('instance:save_and_read_loop_nests')
             ck.explain('instance:save_and_read_walk')
+        if k.startswith(('get-', 'frames-permuted', 'frame-table')):
+            ck.explain('instance:frame_table_key_')
+            ck.explain('instance:every_frame_table_key')
         if k.startswith(('pixel-path-', 'pixel-array-', 'copy-from-frame-', 'dxt-non-square-', 'generated-mipmap', 'frame-dimensions', 'frames-permuted', 'pixels-displaced')):
             ck.explain('instance:pixel_path_')
             ck.explain('instance:pixel_array_')
